@@ -63,9 +63,11 @@ def xmrSubaddrKeys (w : XmrWallet) (minor major : Nat) : R (Bytes × Bytes) := d
       if mInt = 0 then throw .value
       let d := edAdd b (edMulBase mInt)
       let a := Bytes.toNatLE w.privView % 2 ^ 255
-      let c := edMul a d
-      if c = edIdentity then throw .value
-      pure (edEncode d, edEncode c)
+      -- libsodium `crypto_scalarmult_ed25519_noclamp`: refuses `D` outside the prime-order subgroup
+      -- (and the identity), and an identity result
+      match edMulNoclamp a d with
+      | none => throw .value
+      | some c => pure (edEncode d, edEncode c)
 
 def xmrPrimaryAddress (w : XmrWallet) (netVer : Bytes) : R (List Char) :=
   xmrAddrEncode netVer none w.pubSpend w.pubView
